@@ -46,7 +46,14 @@ PENDING_FINDINGS = {
 TYPE_POOL = [('Text', 'text'), ('TextBuffer', 'text_buffer'), ('TextBufferIter', 'text_buffer_iter'),
              ('TextTag', 'text_tag'), ('Widget', 'widget'), ('Button', 'button'), ('Label', 'label'),
              ('HTMLView', 'html_view'), ('X', 'x'), ('Obj2', 'obj2'), ('Window', 'window'),
-             ('WindowObject', 'window_object'), ('Tex', 'tex')]
+             ('WindowObject', 'window_object'), ('Tex', 'tex'),
+             # type names with Get / GetType / Set words in inner and final positions: the symbol prefix of a
+             # registered type is its get-type symbol minus the FINAL _get_type / _get_gtype only
+             ('Http', 'http'), ('HttpGetRequest', 'http_get_request'), ('Getter', 'getter'),
+             ('TargetGet', 'target_get'), ('WidgetGetTypeHelper', 'widget_get_type_helper'),
+             ('NoGetSetFunc', 'no_get_set_func'), ('GetGtypeInfo', 'get_gtype_info')]
+GET_WORD_TYPES = [t for t in TYPE_POOL if 'Get' in t[0] or t[0] == 'Http']
+ENUM_POOL = [('Mode', 'mode'), ('TargetGetKind', 'target_get_kind'), ('GetFlags', 'get_flags'), ('TextStyle', 'text_style')]
 WORDS = ['Foo', 'Bar', 'Text', 'Buffer', 'X', 'HTML', 'DBus', 'A', 'Ab', 'ABC', 'Gtk', 'G', 'Iter', 'V2', 'x11', 'Io',
          'IO', 'UInt8', '3D', 'b', 'Z9z']
 NS_POOL = ['Foo', 'Gtk', 'GFoo', 'FooBar', 'Abc', 'G', 'Gdk']
@@ -382,13 +389,24 @@ def base_of_ctype(ct):
     return (ct or '').replace('*', '').replace('const ', '').strip()
 
 
-def type_prefix_strips(sub, type_el):
+def owner_prefixes(type_el, reg):
+    """spellings of the owning type's symbol prefix: for a GType-registered type what its get-type function
+    says (`reg`, computed in oracle() from the dump; <enumeration>/<bitfield> carry no attribute at all),
+    otherwise the c:symbol-prefix attribute"""
+    fromreg = sorted((reg or {}).get(type_el.get(q('glib:get-type')), ()))
+    if fromreg:
+        return fromreg
+    sp = type_el.get(q('c:symbol-prefix'))
+    return [sp] if sp else []
+
+
+def type_prefix_strips(sub, type_el, reg=None):
     """names obtainable from `sub` by removing the owning type's symbol prefix and the separator"""
     out = set()
     tname = type_el.get('name')
-    sp = type_el.get(q('c:symbol-prefix'))
-    if sp and sub.startswith(sp + '_'):
-        out.add(sub[len(sp) + 1:])
+    for sp in owner_prefixes(type_el, reg):
+        if sub.startswith(sp + '_'):
+            out.add(sub[len(sp) + 1:])
     want = spec_squash(tname)
     for k in range(1, len(sub)):
         if sub[k] == '_' and spec_squash(sub[:k]) == want:
@@ -396,12 +414,12 @@ def type_prefix_strips(sub, type_el):
     return out
 
 
-def type_prefix_lengths(sub, type_el):
+def type_prefix_lengths(sub, type_el, reg=None):
     """lengths of the spellings of the owning type's symbol prefix that lead `sub`"""
     out = set()
-    sp = type_el.get(q('c:symbol-prefix'))
-    if sp and sub.startswith(sp):
-        out.add(len(sp))
+    for sp in owner_prefixes(type_el, reg):
+        if sub.startswith(sp):
+            out.add(len(sp))
     want = spec_squash(type_el.get('name'))
     for k in range(1, len(sub) + 1):
         if spec_squash(sub[:k]) == want and not sub[:k].endswith('_'):
@@ -409,9 +427,8 @@ def type_prefix_lengths(sub, type_el):
     return out
 
 
-def carries_type_prefix(sub, type_el):
-    sp = type_el.get(q('c:symbol-prefix'))
-    if sp and sub.startswith(sp):
+def carries_type_prefix(sub, type_el, reg=None):
+    if any(sub.startswith(sp) for sp in owner_prefixes(type_el, reg)):
         return True
     want = spec_squash(type_el.get('name'))
     return any(spec_squash(sub[:k]) == want for k in range(1, len(sub) + 1))
@@ -473,6 +490,30 @@ def oracle(ctx, case, outcome, res, cnt, type_names):
         nonlocal verdict
         verdict = 'violation'
         fail(ctx, case, key, None, what)
+
+    # ---- the symbol prefix of a GType-registered type: its get-type function (folded into the type) minus the
+    # namespace prefix and minus the final _get_type / _get_gtype
+    reg = {}
+    for e in (case.get('dump') or []):
+        gt = e['get_type']
+        expected = reg.setdefault(gt, set())
+        for st in spec_symbol_strips(gt, symp):
+            for suf in ('_get_type', '_get_gtype'):
+                if st.endswith(suf):
+                    expected.add(st[:-len(suf)])
+                    break
+        for where, tag, el, parent in els:
+            if where == 'top' and el.get(q('glib:get-type')) == gt:
+                cnt.hit('registered:%s:%s' % (tag, 'gtype' if gt.endswith('_get_gtype') else 'type'))
+                if '_get_' in gt[:-len('_get_gtype' if gt.endswith('_get_gtype') else '_get_type')]:
+                    cnt.hit('registered:inner-get-word')
+                # (<enumeration> / <bitfield> carry no c:symbol-prefix attribute in the GIR format: their prefix
+                # is only judged through the names of the functions hung on them)
+                if expected and el.get(q('c:symbol-prefix')) is not None and \
+                        el.get(q('c:symbol-prefix')) not in expected:
+                    bad('symbol-prefix', '%s %s registered by %s has c:symbol-prefix %r; the get-type symbol minus '
+                        'namespace prefix and final suffix gives %r'
+                        % (tag, el.get('name'), gt, el.get(q('c:symbol-prefix')), sorted(expected)))
 
     def ancestors(ctype):
         """C names of the type and its ancestors, from the dump's parent lists and the includes"""
@@ -551,8 +592,8 @@ def oracle(ctx, case, outcome, res, cnt, type_names):
             cnt.hit('owner:' + tag)
             ok_names = set()
             for s in strips:
-                ok_names |= type_prefix_strips(s, parent)
-            carries = any(carries_type_prefix(s, parent) for s in strips)
+                ok_names |= type_prefix_strips(s, parent, reg)
+            carries = any(carries_type_prefix(s, parent, reg) for s in strips)
             if annotated:
                 ok_names |= set(strips)            # an annotated function may keep its namespace-stripped name
             if got not in ok_names:
@@ -560,7 +601,7 @@ def oracle(ctx, case, outcome, res, cnt, type_names):
                 # the remaining known defect, exactly: the stripped symbol st also occurs EARLIER in the C symbol
                 # and the name is the C symbol cut at (that leftmost position + type prefix + 1)
                 sub_cut = [st for st in strips if name.find(st) != len(name) - len(st) and any(
-                    got == name[name.find(st) + L + 1:] for L in type_prefix_lengths(st, parent))]
+                    got == name[name.find(st) + L + 1:] for L in type_prefix_lengths(st, parent, reg))]
                 if sub_cut:
                     key = 'maintransformer._setup_method/_get_constructor_name:str.find(subsymbol)-leftmost-occurrence'
                 bad(key, '%s %s of %s is named %r; stripping namespace and type prefix gives %r'
@@ -791,6 +832,12 @@ def gen_case(rng):
         for t in (('Text', 'text'), ('TextBuffer', 'text_buffer')):
             if t not in chosen:
                 chosen.append(t)
+    if rng.random() < 0.35:
+        # force Get-word type names, often together with the type owning the truncated prefix (Http vs HttpGetRequest)
+        for t in rng.sample(GET_WORD_TYPES, rng.randint(1, 3)) + ([('Http', 'http'), ('HttpGetRequest', 'http_get_request')]
+                                                                  if rng.random() < 0.4 else []):
+            if t not in chosen:
+                chosen.append(t)
     classes = []          # (cname, uscored, sp)
     records = []
     for base, usc in chosen:
@@ -801,6 +848,8 @@ def gen_case(rng):
                            'tag_only', 'utag_only', 'same_tag'])
         union = rng.random() < 0.12
         reg = None
+        if use_dump and 'Get' in base and form in ('anon', 'tag_only', 'utag_only') and rng.random() < 0.7:
+            form = 'typedef_first'
         if use_dump and form in ('typedef_first', 'tag_first', 'typedef_only', 'same_tag') and rng.random() < 0.7:
             reg = rng.choice(['class', 'class', 'class', 'boxed', 'interface'])
             if reg in ('class', 'interface'):
@@ -818,11 +867,12 @@ def gen_case(rng):
                                                                         'n': '_' + cname}})
         if reg is None and rng.random() < 0.1:
             ann[cname] = ['foreign']
-        gt = '%s_%s_get_type' % (sp, usc)
+        gt_suffix = '_get_gtype' if rng.random() < 0.25 else '_get_type'
+        gt = '%s_%s%s' % (sp, usc, gt_suffix)
         if reg:
             odd = rng.random() < 0.1
             if odd:
-                gt = '%s_%s_object_get_type' % (sp, usc)      # gdk_window_object_get_type
+                gt = '%s_%s_object%s' % (sp, usc, gt_suffix)      # gdk_window_object_get_type
             decls.append(fn(gt, T('GType')))
             ent = {'kind': reg, 'name': cname, 'get_type': gt}
             if reg == 'class':
@@ -866,6 +916,12 @@ def gen_case(rng):
             lambda: fn('%s_%s_%s_x' % (sp, usc, usc), T('int'), me),
             lambda: fn('%s_make_%s' % (sp, usc), me),
             lambda: fn('%s_%s_from_other' % (sp, usc), me, other),
+            # near-miss prefixes: only the first word(s) of the type prefix, or the part before an inner _get_
+            lambda: fn('%s_%s_cancel' % (sp, usc.split('_')[0]), T('void'), me),
+            lambda: fn('%s_%s_new' % (sp, usc.split('_get_')[0].split('_')[0]), me),
+            lambda: fn('%s_%s_send' % (sp, usc), T('void'), me),
+            lambda: fn('%s_%s_get_types' % (sp, usc), T('int')),
+            lambda: fn('%s_%s_get_type_name' % (sp, usc), T('int'), me),
         ]
         for _ in range(rng.randint(0, 5)):
             f = rng.choice(menu)()
@@ -878,6 +934,28 @@ def gen_case(rng):
                 ann[f['name']] = ['constructor']
             elif rng.random() < 0.04:
                 ann[f['name']] = [rng.choice(['method', 'constructor'])]
+    # enumerations, GType-registered through the dump (<enum> / <flags>) or plain
+    for base, usc in rng.sample(ENUM_POOL, rng.choice([0, 0, 1, 1, 2])):
+        idpre = rng.choice(eff_id)
+        cname = idpre + base
+        sp = rng.choice(sym_choices)
+        if any(x.get('name') == cname for x in decls):
+            continue
+        members = [{'name': '%s_%s_A' % (sp.upper(), usc.upper()), 'value': 0},
+                   {'name': '%s_%s_B' % (sp.upper(), usc.upper()), 'value': 1}]
+        decls.append({'d': 'typedef', 'name': cname, 'type': {'k': 'enum', 'n': None, 'members': members}})
+        registered = use_dump and rng.random() < 0.7
+        if registered:
+            gt = '%s_%s%s' % (sp, usc, '_get_gtype' if rng.random() < 0.25 else '_get_type')
+            decls.append(fn(gt, T('GType')))
+            dump.append({'kind': rng.choice(['enum', 'flags']), 'name': cname, 'get_type': gt})
+        for f in rng.sample([fn('%s_%s_to_string' % (sp, usc), T('int'), T('int')),
+                             fn('%s_%s_get_nick' % (sp, usc), T('int'), T(cname)),
+                             fn('%s_%s_to_string' % (sp, usc.split('_')[0]), T('int'), T('int')),
+                             fn('%s_%s_new' % (sp, usc), T(cname)),
+                             fn('%s_%s' % (sp, usc), T('int'))], rng.randint(0, 3)):
+            if not any(x['d'] == 'function' and x['name'] == f['name'] for x in decls):
+                decls.append(f)
     # free-standing declarations
     sp = rng.choice(sym_choices)
     idpre = rng.choice(eff_id)
@@ -1420,8 +1498,9 @@ def run(ctx):
                 'underscores / non-ASCII; prefix configurations (0-3 identifier and symbol prefixes per namespace, '
                 'empty prefixes, prefixes of each other, 0-3 includes, accept-unprefixed) x names built around them; '
                 'underscored strings x key sets for the type splitter. pipeline level: declaration sets (records in all '
-                'typedef/tag orders, function-pointer and anonymous-compound members, unions, classes/interfaces/boxed '
-                'via a minimal dump, look-alike type prefixes, '
+                'typedef/tag orders, function-pointer and anonymous-compound members, unions, classes/interfaces/boxed/'
+                'enums/flags via a minimal dump registered through *_get_type and *_get_gtype, type names with Get/'
+                'GetType/Set words in inner and final positions, look-alike and truncated type prefixes, '
                 'method/constructor/static look-alikes, annotated functions, foreign / underscore / upper-case symbols, '
                 'constants, enums, callbacks, aliases) x prefix configurations (1-3 identifier prefixes, explicit or '
                 'default symbol prefixes with/without trailing "_", includes whose prefix is a prefix of ours, '
@@ -1441,7 +1520,8 @@ def run(ctx):
         'the C lexer/parser is not exercised: inputs start at the symbol stream (scanpipe)',
         'two declarations never share a C identifier (C forbids it for ordinary identifiers); the model flags it as dupCid',
         'function macros, (rename-to), (skip), out-parameters as first argument and error-quark functions are not modelled',
-        'the runtime dump is restricted to class / interface / boxed entries (C12 covers the dump)',
+        'the runtime dump is restricted to class / interface / boxed / enum / flags entries without members '
+        '(C12 covers the dump)',
         'type lookup of parameters is modelled for typedef names (pointer depth 0-2); container types (GList...) are not generated',
         'cyclic parent chains do not occur (GType); the model walks with fuel',
         'aliases whose stripped name is a fundamental type name or ends in _autoptr, types whose name equals a prefix, '
